@@ -1,18 +1,434 @@
-//! C08 — not built yet.
+//! C08 — every resolution terminates in bounded time whatever upstream
+//! servers do.  E-NET with a fault alphabet assigned to exchange positions
+//! (deviation bound 1 quick / 2 thorough), all candidate orders.
+
+use crate::c07::{base_spec, params_from_json, step_from_json, step_to_json};
 use crate::common::*;
-use serde_json::Value;
+use crate::net::*;
+use crate::procpar::{self, JsonAcc};
+use crate::ugen::*;
+use crate::util::*;
+use dns_resolver::util::types::{ProtocolMode, ResolutionError};
+use dns_types::protocol::types::*;
+use serde_json::{json, Value};
+use std::collections::BTreeSet;
+use std::net::{IpAddr, Ipv4Addr, SocketAddr};
+use std::sync::Arc;
 
-pub fn run(_ctx: &Ctx) -> i32 {
-    eprintln!("C08: check not built");
-    2
+pub fn fault_alphabet() -> Vec<Fault> {
+    vec![
+        Fault::Honest,
+        Fault::Silent,
+        Fault::IoError,
+        Fault::Delay(4900),
+        Fault::Delay(5100),
+        Fault::Delay(9900),
+        Fault::Delay(70000),
+        Fault::Garbage,
+        Fault::Truncate(2),
+        Fault::Truncate(4),
+        Fault::Truncate(6),
+        Fault::Truncate(7),
+        Fault::WrongId,
+        Fault::Qr0,
+        Fault::Tc,
+        Fault::Rcode(1),
+        Fault::Rcode(2),
+        Fault::Rcode(4),
+        Fault::Rcode(5),
+        Fault::AlterQuestion,
+        Fault::Empty,
+        Fault::ReferralSame,
+        Fault::ReferralUp,
+        Fault::ReferralUnresolvable,
+        Fault::CnameSelf,
+        Fault::CnameCycle2,
+        Fault::NxForeignSoa,
+    ]
 }
 
-pub fn replay(_ctx: &Ctx, _v: &Value) -> i32 {
-    eprintln!("C08: check not built");
-    2
+#[derive(Clone)]
+struct Scenario {
+    name: String,
+    params: Option<GenParams>,
+    universe: Arc<Universe>,
+    mode: Mode,
+    protocol: ProtocolMode,
+    questions: Vec<Question>,
+    bound: usize,
+    window: usize,
 }
 
-/// Entry point for `vcheck worker C08 <args...>` (child-process mode).
-pub fn worker(_args: &[String]) -> i32 {
-    2
+fn scenarios(tier: Tier) -> Vec<Scenario> {
+    let mut out = Vec::new();
+    let mut add = |p: GenParams, mode: Mode, protocol: ProtocolMode, bound: usize, nq: usize| {
+        let u = Arc::new(build(&p));
+        let leaf = level_apex(p.depth);
+        let mut qs = vec![
+            question(&prepend(b"www", &leaf), qt(RecordType::A)),
+            question(&prepend(b"chain", &leaf), qt(RecordType::A)),
+            question(&prepend(b"missing", &leaf), qt(RecordType::TXT)),
+            question(&prepend(b"dangling", &leaf), qt(RecordType::A)),
+            question(&prepend(b"ext", &leaf), qt(RecordType::MX)),
+        ];
+        qs.truncate(nq);
+        out.push(Scenario {
+            name: format!("{} mode={:?} protocol={}", p.describe(), mode, protocol),
+            params: Some(p),
+            universe: u,
+            mode,
+            protocol,
+            questions: qs,
+            bound,
+            window: 24,
+        });
+    };
+    let fwd = SocketAddr::new(IpAddr::V4(Ipv4Addr::new(10, 9, 9, 9)), 53);
+    let b = tier.pick(1, 2);
+    // glueless nameservers -> nested resolutions, many exchanges
+    let mut p1 = GenParams::simple(2, NsStyle::Sibling, 1);
+    p1.send_additional = true;
+    add(p1.clone(), Mode::Recursive, ProtocolMode::OnlyV4, b, tier.pick(3, 5));
+    let mut p2 = GenParams::simple(2, NsStyle::InZoneGlue, 2);
+    p2.styles = vec![NsStyle::InParent, NsStyle::InZoneGlue];
+    add(p2.clone(), Mode::Recursive, ProtocolMode::OnlyV4, b, tier.pick(2, 5));
+    let p3 = GenParams::simple(1, NsStyle::InZoneGlue, 1);
+    add(p3.clone(), Mode::Recursive, ProtocolMode::OnlyV4, tier.pick(2, 3), tier.pick(2, 5));
+    add(p3.clone(), Mode::Forwarding(fwd), ProtocolMode::OnlyV4, tier.pick(2, 3), tier.pick(3, 5));
+    // all four protocol modes on a dual-stack universe
+    let mut p4 = GenParams::simple(2, NsStyle::InParent, 1);
+    p4.families = vec![Family::Dual; 4];
+    for pm in [
+        ProtocolMode::OnlyV4,
+        ProtocolMode::PreferV4,
+        ProtocolMode::PreferV6,
+        ProtocolMode::OnlyV6,
+    ] {
+        add(p4.clone(), Mode::Recursive, pm, 1, tier.pick(1, 3));
+    }
+    if tier == Tier::Thorough {
+        let mut p5 = GenParams::simple(3, NsStyle::Sibling, 1);
+        p5.styles = vec![NsStyle::InZoneGlue, NsStyle::Sibling, NsStyle::InParent];
+        p5.chase_in_reply = true;
+        add(p5, Mode::Recursive, ProtocolMode::OnlyV4, 2, 4);
+        let p6 = GenParams::simple(2, NsStyle::Sibling, 2);
+        add(p6, Mode::Recursive, ProtocolMode::OnlyV4, 2, 2);
+        add(p1, Mode::Forwarding(fwd), ProtocolMode::OnlyV4, 2, 5);
+        let mut p7 = GenParams::simple(4, NsStyle::InParent, 1);
+        p7.styles = vec![NsStyle::Sibling, NsStyle::InParent, NsStyle::Sibling, NsStyle::InZoneGlue];
+        add(p7, Mode::Recursive, ProtocolMode::OnlyV4, 1, 3);
+    }
+    // the 60 s cap: glueless nameservers whose zone is served by a silent host
+    for n in tier.pick(vec![7usize], vec![3, 6, 7, 9]) {
+        let (u, q) = dead_universe(n);
+        out.push(Scenario {
+            name: u.description.clone(),
+            params: None,
+            universe: Arc::new(u),
+            mode: Mode::Recursive,
+            protocol: ProtocolMode::OnlyV4,
+            questions: vec![q],
+            bound: tier.pick(0, 1),
+            window: 6,
+        });
+    }
+    out
+}
+
+fn replay_json(sc: &Scenario, si: usize, q: &Question, choices: &[usize]) -> Value {
+    json!({
+        "kind": "net-fault",
+        "scenario": si,
+        "scenario_name": sc.name,
+        "tier_of_scenario_table": "see `tier`",
+        "question": {"name": q.name.to_dotted_string(), "qtype": u16::from(q.qtype)},
+        "choices": choices,
+    })
+}
+
+fn spec_for(sc: &Scenario, q: &Question) -> RunSpec {
+    let mut spec = base_spec(sc.universe.clone(), vec![Step::Ask(q.clone())]);
+    spec.mode = sc.mode.clone();
+    spec.protocol_mode = sc.protocol;
+    spec.faults = fault_alphabet();
+    spec.fault_window = sc.window;
+    spec
+}
+
+const NS_PER_MS: u64 = 1_000_000;
+
+/// The oracle for one execution; pushes findings.
+fn judge(sc: &Scenario, res: &RunResult) -> Vec<(&'static str, String)> {
+    let mut out = Vec::new();
+    let mut supplied: BTreeSet<(DomainName, RecordTypeWithData)> = BTreeSet::new();
+    for (name, addrs) in &sc.universe.hints {
+        supplied.insert((DomainName::root_domain(), ns(name)));
+        for a in addrs {
+            supplied.insert((
+                name.clone(),
+                match a {
+                    IpAddr::V4(v) => RecordTypeWithData::A { address: *v },
+                    IpAddr::V6(v) => RecordTypeWithData::AAAA { address: *v },
+                },
+            ));
+        }
+    }
+    for e in &res.log {
+        for r in &e.sent {
+            supplied.insert(nottl(r));
+        }
+        match e.end_ns {
+            None => out.push((
+                "exchange-never-ended",
+                format!("exchange #{} was still open when the resolution returned", e.index),
+            )),
+            Some(end) => {
+                let dur = end - e.start_ns;
+                if dur > 5000 * NS_PER_MS + NS_PER_MS {
+                    out.push((
+                        "exchange-over-5s",
+                        format!(
+                            "exchange #{} ({:?} to {}) lasted {} ms",
+                            e.index,
+                            e.proto,
+                            e.addr,
+                            dur / NS_PER_MS
+                        ),
+                    ));
+                }
+            }
+        }
+    }
+    for a in &res.asks {
+        let dur = a.end_ns - a.start_ns;
+        if dur > 60_000 * NS_PER_MS + 2 * NS_PER_MS {
+            out.push((
+                "resolution-over-60s",
+                format!("the resolution took {} ms of virtual time", dur / NS_PER_MS),
+            ));
+        }
+        match &a.outcome {
+            Outcome::Panic(m) => out.push(("panic", format!("panicked: {m}"))),
+            Outcome::Ok(r) => {
+                let mut rrs = r.clone().rrs();
+                if let Some(s) = r.soa_rr() {
+                    rrs.push(s.clone());
+                }
+                for r in rrs {
+                    if !supplied.contains(&nottl(&r)) {
+                        out.push((
+                            "fabricated-record",
+                            format!(
+                                "returned {} which no upstream reply and no local data supplied",
+                                show_rr(&r)
+                            ),
+                        ));
+                    }
+                }
+            }
+            Outcome::Err(_) => {}
+        }
+    }
+    out
+}
+
+fn run_item(tier: Tier, scs: &[Scenario], items: &[(usize, usize)], i: usize, acc: &mut JsonAcc) {
+    let (si, qi) = items[i];
+    let sc = &scs[si];
+    let q = &sc.questions[qi];
+    let spec = spec_for(sc, q);
+    let mut stats = ExploreStats::default();
+    if acc.trace {
+        let (sc2, q2) = (sc.clone(), q.clone());
+        stats.pre = Some(Box::new(move |prefix: &[usize]| {
+            println!("EXEC {}", replay_json(&sc2, si, &q2, prefix));
+            use std::io::Write;
+            let _ = std::io::stdout().flush();
+        }));
+    }
+    let max_exec = tier.pick(40_000u64, 2_000_000u64);
+    let mut visit = |res: &RunResult, choices: &[usize]| {
+        if let Some(d) = &res.divergence {
+            acc.violate("machinery-divergence", d.clone(), replay_json(sc, si, q, choices), None);
+            return;
+        }
+        let findings = judge(sc, res);
+        for (clause, msg) in findings {
+            acc.violate(
+                clause,
+                format!(
+                    "{} :: {} {} :: {} :: log {}",
+                    sc.name,
+                    show_name(&q.name),
+                    q.qtype,
+                    msg,
+                    show_log(&res.log)
+                ),
+                replay_json(sc, si, q, choices),
+                None,
+            );
+        }
+        let faults: Vec<String> = res
+            .log
+            .iter()
+            .filter(|e| e.fault != Fault::Honest)
+            .map(|e| format!("{:?}", e.fault))
+            .collect();
+        if !faults.is_empty() {
+            acc.count("nontrivial", 1);
+        }
+        let a = &res.asks[0];
+        let class = match &a.outcome {
+            Outcome::Ok(_) => "answered",
+            Outcome::Err(ResolutionError::Timeout) => "error: timed out at 60 s",
+            Outcome::Err(ResolutionError::DeadEnd { .. }) => "error: dead end",
+            Outcome::Err(ResolutionError::RecursionLimit) => "error: recursion limit",
+            Outcome::Err(ResolutionError::DuplicateQuestion { .. }) => "error: duplicate question",
+            Outcome::Err(_) => "error: other",
+            Outcome::Panic(_) => "panic",
+        };
+        acc.hist(class, 1);
+        let secs = (a.end_ns - a.start_ns) / (1000 * NS_PER_MS);
+        acc.hist(
+            match secs {
+                0 => "virtual duration < 1 s",
+                1..=9 => "virtual duration 1-9 s",
+                10..=29 => "virtual duration 10-29 s",
+                30..=59 => "virtual duration 30-59 s",
+                _ => "virtual duration >= 60 s",
+            },
+            1,
+        );
+        acc.states.insert(fnv64(
+            format!("{}|{}|{:?}|{}", si, show_outcome(&a.outcome), faults, secs).as_bytes(),
+        ));
+        if faults.len() >= 1 && res.log.len() >= 4 {
+            acc.sample(json!({
+                "scenario": sc.name,
+                "question": format!("{} {}", show_name(&q.name), q.qtype),
+                "exchanges": show_log(&res.log),
+                "outcome": show_outcome(&a.outcome),
+                "virtual_ms": (a.end_ns - a.start_ns) / NS_PER_MS,
+            }));
+        }
+    };
+    explore(&spec, sc.bound, max_exec, &mut stats, &mut visit);
+    acc.count("executions", stats.executions);
+    acc.count("exchanges", stats.exchanges);
+    acc.count("choice_points", stats.choice_points);
+    acc.count("faulted_executions", stats.faulted_executions);
+    if stats.capped {
+        acc.capped = true;
+        acc.count("items_capped", 1);
+    }
+}
+
+fn item_list(scs: &[Scenario]) -> Vec<(usize, usize)> {
+    let mut v = Vec::new();
+    for (si, sc) in scs.iter().enumerate() {
+        for qi in 0..sc.questions.len() {
+            v.push((si, qi));
+        }
+    }
+    v
+}
+
+pub fn run(ctx: &Ctx) -> i32 {
+    let scs = scenarios(ctx.tier);
+    let items = item_list(&scs);
+    let (acc, crashes) = procpar::parent(ctx, items.len(), ctx.tier.pick(40.0, 570.0), &[]);
+    let mut report = Report::new();
+    report.level = "fault_enumeration";
+    report.evaluations = acc.counters.get("executions").copied().unwrap_or(0);
+    report.transitions = acc.counters.get("exchanges").copied().unwrap_or(0)
+        + acc.counters.get("choice_points").copied().unwrap_or(0);
+    report.traces_validated = report.evaluations;
+    report.distinct_nontrivial = acc.counters.get("nontrivial").copied().unwrap_or(0);
+    procpar::into_report(acc, crashes, &mut report);
+    report.rule = "every assignment of at most `bound` faults from the alphabet to the exchange positions of a resolution (choice-point DFS: position x fault, later positions re-enumerated because a fault changes what follows), all candidate orders, per scenario (universe x mode x protocol mode x question); one execution = dns_resolver::resolve run to completion on tokio's paused clock; non-trivial = executions in which at least one exchange carried a fault (measured); states = distinct (scenario, outcome, fault list, duration) observations".into();
+    report.bounds = json!({
+        "fault_alphabet": fault_alphabet().iter().map(show_fault).collect::<Vec<_>>(),
+        "scenarios": scs.iter().map(|s| json!({"name": s.name, "deviation_bound": s.bound, "questions": s.questions.len(), "fault_window_exchanges": s.window})).collect::<Vec<_>>(),
+        "max_executions_per_item": ctx.tier.pick(40_000, 2_000_000),
+    });
+    report.assumptions = vec![
+        "time is tokio's paused clock: timers fire in virtual time, exchanges are measured from the transport call to completion or cancellation of its future".into(),
+        "the process-level runner reports a child that dies or stops making progress as a violation (stack overflow, busy loop)".into(),
+        "a record counts as supplied if it occurs in any upstream reply of the run as sent (decoded by the reference decoder) or in the root hints".into(),
+    ];
+    finish(ctx, report)
+}
+
+fn replay_inner(ctx: &Ctx, v: &Value) -> i32 {
+    // scenario tables differ per tier: find the scenario by name
+    let name = v["scenario_name"].as_str().unwrap_or("");
+    let sc = scenarios(Tier::Thorough)
+        .into_iter()
+        .chain(scenarios(Tier::Quick))
+        .find(|s| s.name == name);
+    let sc = match sc {
+        Some(s) => s,
+        None => {
+            eprintln!("unknown scenario {name}");
+            return 2;
+        }
+    };
+    let q = question(
+        &dn(v["question"]["name"].as_str().unwrap_or(".")),
+        QueryType::from(v["question"]["qtype"].as_u64().unwrap_or(1) as u16),
+    );
+    let choices: Vec<usize> = v["choices"]
+        .as_array()
+        .cloned()
+        .unwrap_or_default()
+        .iter()
+        .filter_map(|c| c.as_u64().map(|c| c as usize))
+        .collect();
+    let spec = spec_for(&sc, &q);
+    let res = run_once(&spec, &choices);
+    println!("scenario: {}", sc.name);
+    println!("exchanges: {}", show_log(&res.log));
+    for a in &res.asks {
+        println!(
+            "outcome: {} after {} ms",
+            show_outcome(&a.outcome),
+            (a.end_ns - a.start_ns) / NS_PER_MS
+        );
+    }
+    let findings = judge(&sc, &res);
+    for (c, m) in &findings {
+        println!("  finding [{c}]: {m}");
+    }
+    if findings.is_empty() {
+        println!("replay: property holds on this case");
+        0
+    } else {
+        println!("VIOLATION property={} replay=(replayed case)", ctx.id);
+        1
+    }
+}
+
+pub fn replay(ctx: &Ctx, v: &Value) -> i32 {
+    procpar::replay_in_child(ctx, v)
+}
+
+pub fn worker(args: &[String]) -> i32 {
+    if let Some(v) = procpar::replay_arg(args) {
+        let ctx = Ctx {
+            id: "C08",
+            tier: Tier::Quick,
+            seed: 0,
+            start: std::time::Instant::now(),
+            threads: 1,
+        };
+        return replay_inner(&ctx, &v);
+    }
+    let tier = if args.first().map(String::as_str) == Some("thorough") {
+        Tier::Thorough
+    } else {
+        Tier::Quick
+    };
+    let scs = scenarios(tier);
+    let items = item_list(&scs);
+    procpar::child_main(args, move |tier, i, acc| run_item(tier, &scs, &items, i, acc))
 }
